@@ -641,6 +641,9 @@ class _MakeComposite:
         "MissingSerializationModeError": lambda s: IS_NONE(s.builder._serialization_mode),
         "InvalidNameError": None, "InvalidVersionError": None, "AttributeNameCollisionError": None,
         "InvalidFixedPortIDError": None, "AggregationError": None, "MalformedUnionError": None, "InvalidExtentError": None,
+        # (the composite constructors are used through the coarse contracts of specs/c03.py in this process, which name
+        # only the common base class of the rule-specific errors above)
+        "InvalidDefinitionError": None,
     }
 
     def pre(s):
@@ -700,8 +703,25 @@ def _mk_simple_type(k):
             "arr-byte": lambda: S.FixedLengthArrayType(S.ByteType(), 4)}[k]()
 
 
-def _gen_attr(rng, i):
+def _indexed(cases, rnd):
+    """Generator: the listed boundary / cross-kind cases first (index-based, so that the escalation run on an undecided
+    function reaches them at once), random ones afterwards."""
+    def gen(rng, i):
+        if i < len(cases):
+            return cases[i]
+        return rnd(rng, i)
+
+    return gen
+
+
+_ATTR_CASES = [{"type": t, "name": n} for t in ("void", "u8") for n in ("", "x", "true", "TRUE", "_x_", "0x", "K", "a b", "uint8", "com1")]
+
+
+def _rnd_attr(rng, i):
     return {"type": rng.choice(["void", "u8", "bool", "arr"]), "name": rng.choice(_NAMES)}
+
+
+_gen_attr = _indexed(_ATTR_CASES, _rnd_attr)
 
 
 def _build_attr(cls):
@@ -714,15 +734,36 @@ def _build_attr(cls):
     return build
 
 
-def _gen_width(rng, i):
-    return {"n": rng.choice([-1, 0, 1, 2, 3, 8, 63, 64, 65, 128]), "cast": rng.choice(["s", "t"])}
-
-
-def _build_signed(desc):
+def _build_padding(desc):
     from pydsdl import _serializable as S
 
-    cm = S.PrimitiveType.CastMode.SATURATED if desc["cast"] == "s" else S.PrimitiveType.CastMode.TRUNCATED
-    return (lambda: S.SignedIntegerType(desc["n"], cm)), {"bit_length": desc["n"], "cast_mode": cm}
+    t = _mk_simple_type(desc["type"])
+    return (lambda: S.PaddingField(t)), {"data_type": t, "doc": ""}
+
+
+_gen_padding = _indexed([{"type": t} for t in ("void", "u8", "bool", "byte", "arr")], lambda rng, i: None)
+
+_WIDTH_CASES = [{"n": n, "cast": c} for n in (-1, 0, 1, 2, 3, 15, 16, 17, 31, 32, 33, 63, 64, 65, 128) for c in ("s", "t")]
+_gen_width = _indexed(_WIDTH_CASES, lambda rng, i: {"n": rng.randrange(-3, 70), "cast": rng.choice(["s", "t"])})
+
+
+def _cast(desc):
+    from pydsdl import _serializable as S
+
+    return S.PrimitiveType.CastMode.SATURATED if desc["cast"] == "s" else S.PrimitiveType.CastMode.TRUNCATED
+
+
+def _build_width(clsname):
+    def build(desc):
+        from pydsdl import _serializable as S
+
+        cm = _cast(desc)
+        return (lambda: getattr(S, clsname)(desc["n"], cm)), {"bit_length": desc["n"], "cast_mode": cm}
+
+    return build
+
+
+_build_signed = _build_width("SignedIntegerType")
 
 
 def _build_void(desc):
@@ -731,54 +772,96 @@ def _build_void(desc):
     return (lambda: S.VoidType(desc["n"])), {"bit_length": desc["n"]}
 
 
-def _gen_agg(rng, i):
-    return {"elem": rng.choice(["void", "u8", "bool", "byte", "utf8", "arr", "varr-utf8", "arr-byte", "dep", "dep-arr", "delim-dep"]),
-            "agg": rng.choice(["struct", "union", "struct-dep", "delim", "arr", "varr", "svc"])}
+_CAP_CASES = [{"cap": c, "elem": e} for c in (-1, 0, 1, 2, 255, 256) for e in ("u8", "bool")]
+_gen_cap = _indexed(_CAP_CASES, lambda rng, i: {"cap": rng.randrange(-2, 70000), "elem": "u8"})
 
 
-def _build_agg(desc):
+def _build_array(clsname):
+    def build(desc):
+        from pydsdl import _serializable as S
+
+        t = _mk_simple_type(desc["elem"])
+        return (lambda: getattr(S, clsname)(t, desc["cap"])), {"element_type": t, "capacity": desc["cap"]}
+
+    return build
+
+
+_ELEMS = ["void", "u8", "bool", "byte", "utf8", "arr", "varr-utf8", "arr-byte", "dep", "dep-arr", "delim-dep", "arr-void", "varr-dep",
+          "svc-elem"]
+_AGGS = ["struct", "union", "struct-dep", "union-dep", "delim", "delim-union", "delim-dep", "arr", "varr", "svc"]
+_AGG_CASES = [{"elem": e, "agg": a} for e in _ELEMS for a in _AGGS]
+_gen_agg = _indexed(_AGG_CASES, lambda rng, i: {"elem": rng.choice(_ELEMS), "agg": rng.choice(_AGGS)})
+
+
+def _native_comp(cls, name, dep, hps=False, attrs=None):
     from pathlib import Path
     from pydsdl import _serializable as S
 
     u8 = S.UnsignedIntegerType(8, S.PrimitiveType.CastMode.SATURATED)
-
-    def comp(cls, name, dep, hps=False):
-        attrs = [S.Field(u8, "a"), S.Field(u8, "b")]
-        return cls(name=name, version=S.Version(1, 0), attributes=attrs, deprecated=dep, fixed_port_id=None,
-                   source_file_path=Path("ns/%s.1.0.dsdl" % name.split(".")[1]), has_parent_service=hps)
-
-    def elem(k):
-        if k == "dep":
-            return comp(S.StructureType, "ns.Dep", True)
-        if k == "dep-arr":
-            return S.FixedLengthArrayType(comp(S.StructureType, "ns.Dep", True), 2)
-        if k == "delim-dep":
-            return S.DelimitedType(comp(S.StructureType, "ns.Dep", True), 64)
-        return _mk_simple_type(k)
-
-    def agg(k):
-        if k == "struct":
-            return comp(S.StructureType, "ns.Agg", False)
-        if k == "struct-dep":
-            return comp(S.StructureType, "ns.Agg", True)
-        if k == "union":
-            return comp(S.UnionType, "ns.Agg", False)
-        if k == "delim":
-            return S.DelimitedType(comp(S.StructureType, "ns.Agg", False), 64)
-        if k == "arr":
-            return S.FixedLengthArrayType(u8, 3)
-        if k == "varr":
-            return S.VariableLengthArrayType(u8, 3)
-        return S.ServiceType(comp(S.StructureType, "ns.Svc.Request", False, True),
-                             comp(S.StructureType, "ns.Svc.Response", False, True), None)
-
-    t, a = elem(desc["elem"]), agg(desc["agg"])
-    return (lambda: t._check_aggregation(a)), {"self": t, "aggregate": a}
+    attrs = [S.Field(u8, "a"), S.Field(u8, "b")] if attrs is None else attrs
+    return cls(name=name, version=S.Version(1, 0), attributes=attrs, deprecated=dep, fixed_port_id=None,
+               source_file_path=Path("ns/%s.1.0.dsdl" % name.split(".")[1]), has_parent_service=hps)
 
 
-def _gen_reg(rng, i):
-    return {"id": rng.choice([0, 255, 256, 383, 384, 511, 512, 6143, 6144, 7167, 7168, 8191, 8192]),
-            "ns": rng.choice(["uavcan", "cyphal", " uavcan ", "vendor", "Uavcan", ""])}
+def _native_service():
+    from pydsdl import _serializable as S
+
+    return S.ServiceType(_native_comp(S.StructureType, "ns.Svc.Request", False, True),
+                         _native_comp(S.StructureType, "ns.Svc.Response", False, True), None)
+
+
+def _native_elem(k):
+    from pydsdl import _serializable as S
+
+    if k == "dep":
+        return _native_comp(S.StructureType, "ns.Dep", True)
+    if k == "dep-arr":
+        return S.FixedLengthArrayType(_native_comp(S.StructureType, "ns.Dep", True), 2)
+    if k == "varr-dep":
+        return S.VariableLengthArrayType(S.FixedLengthArrayType(_native_comp(S.UnionType, "ns.Dep", True), 2), 3)
+    if k == "delim-dep":
+        return S.DelimitedType(_native_comp(S.StructureType, "ns.Dep", True), 64)
+    if k == "arr-void":
+        return S.FixedLengthArrayType(S.VoidType(3), 2)
+    if k == "svc-elem":
+        return _native_service()
+    return _mk_simple_type(k)
+
+
+def _native_agg(k):
+    from pydsdl import _serializable as S
+
+    u8 = S.UnsignedIntegerType(8, S.PrimitiveType.CastMode.SATURATED)
+    if k in ("struct", "struct-dep"):
+        return _native_comp(S.StructureType, "ns.Agg", k.endswith("dep"))
+    if k in ("union", "union-dep"):
+        return _native_comp(S.UnionType, "ns.Agg", k.endswith("dep"))
+    if k in ("delim", "delim-dep"):
+        return S.DelimitedType(_native_comp(S.StructureType, "ns.Agg", k.endswith("dep")), 64)
+    if k == "delim-union":
+        return S.DelimitedType(_native_comp(S.UnionType, "ns.Agg", False), 64)
+    if k == "arr":
+        return S.FixedLengthArrayType(u8, 3)
+    if k == "varr":
+        return S.VariableLengthArrayType(u8, 3)
+    return _native_service()
+
+
+def _build_agg_for(classes=None):
+    def build(desc):
+        t, a = _native_elem(desc["elem"]), _native_agg(desc["agg"])
+        if classes is not None and type(t).__name__ not in classes:
+            raise ValueError("not a receiver of this override")  # skipped by the suite
+        return (lambda: t._check_aggregation(a)), {"self": t, "aggregate": a}
+
+    return build
+
+
+_build_agg = _build_agg_for()
+
+_REG_IDS = [0, 255, 256, 383, 384, 511, 512, 6143, 6144, 7167, 7168, 8191, 8192]
+_REG_NS = ["uavcan", "cyphal", " uavcan ", "vendor", "Uavcan", ""]
+_gen_reg = _indexed([{"id": i_, "ns": n} for n in _REG_NS for i_ in _REG_IDS], lambda rng, i: {"id": rng.randrange(0, 9000), "ns": rng.choice(_REG_NS)})
 
 
 def _build_reg(fn):
@@ -790,11 +873,208 @@ def _build_reg(fn):
     return build
 
 
+# ---- CompositeType.__init__: the base constructor alone, on an uninitialised instance of each concrete class
+def _A(kind, type_, name=""):
+    return [kind, type_, name]
+
+
+_BASE = {"cls": "StructureType", "name": "ns.T", "ver": [1, 0], "attrs": [], "dep": False, "fpid": None, "path": "ns/T.1.0.dsdl",
+         "hps": False}
+
+
+def _c(**kw):
+    d = dict(_BASE)
+    d.update(kw)
+    return d
+
+
+_F, _K, _P = "field", "const", "pad"
+_COMPOSITE_CASES = [
+    # attribute-name uniqueness across kinds (field / constant / padding), both orders, several paddings
+    _c(attrs=[_A(_F, "i16", "x"), _A(_K, "u8", "x")]),
+    _c(attrs=[_A(_K, "u8", "x"), _A(_F, "i16", "x")]),
+    _c(attrs=[_A(_F, "u8", "x"), _A(_F, "u8", "x")]),
+    _c(attrs=[_A(_K, "u8", "X"), _A(_K, "u8", "X")]),
+    _c(attrs=[_A(_F, "u8", "x"), _A(_P, "void"), _A(_K, "u8", "x")]),
+    _c(attrs=[_A(_P, "void"), _A(_P, "void")]),
+    _c(attrs=[_A(_P, "void"), _A(_F, "u8", "x"), _A(_P, "void"), _A(_K, "u8", "y"), _A(_P, "void")]),
+    _c(attrs=[_A(_F, "u8", "x"), _A(_K, "u8", "X")]),                       # names differ by case only: allowed
+    _c(attrs=[_A(_F, "u8", "a"), _A(_F, "u8", "b"), _A(_K, "u8", "c"), _A(_F, "u8", "a")]),
+    _c(cls="UnionType", attrs=[_A(_F, "u8", "x"), _A(_F, "i16", "y"), _A(_K, "u8", "y")]),
+    _c(cls="ServiceType", attrs=[_A(_F, "u8", "request"), _A(_K, "u8", "request")]),
+    _c(attrs=[]),
+    # port-ID bounds per kind
+    _c(fpid=8191), _c(fpid=8192), _c(fpid=0), _c(fpid=-1), _c(fpid=511), _c(fpid=512),
+    _c(cls="ServiceType", fpid=511), _c(cls="ServiceType", fpid=512), _c(cls="ServiceType", fpid=0), _c(cls="ServiceType", fpid=-1),
+    _c(cls="UnionType", fpid=8192, attrs=[_A(_F, "u8", "a"), _A(_F, "u8", "b")]),
+    # version bounds
+    _c(ver=[0, 0]), _c(ver=[0, 1]), _c(ver=[255, 255]), _c(ver=[256, 0]), _c(ver=[0, 256]), _c(ver=[-1, 1]), _c(ver=[1, -1]),
+    _c(ver=[255, 0], path="ns/T.255.0.dsdl"),
+    # names: empty, no namespace, length 255 / 256, invalid / reserved components, directory mismatch
+    _c(name=""), _c(name="  "), _c(name="T"), _c(name="ns."), _c(name=".T"), _c(name="ns..T", path="ns/x/T.1.0.dsdl"),
+    _c(name="ns.true"), _c(name="ns.\u212a"), _c(name="ns.0T"), _c(name="uint8.T", path="uint8/T.1.0.dsdl"),
+    _c(name=" ns.T "), _c(name="ns." + "T" * 252), _c(name="ns." + "T" * 253),
+    _c(name="ns.T", path="other/T.1.0.dsdl"), _c(name="ns.sub.T", path="ns/sub/T.1.0.dsdl"), _c(name="ns.sub.T", path="ns/T.1.0.dsdl"),
+    _c(name="ns.sub.T", path="x/sub/T.1.0.dsdl"), _c(name="ns.T", path="ns.old/T.1.0.dsdl"),
+    _c(name="ns.Svc.Request", path="ns/Svc.1.0.dsdl", hps=True), _c(name="ns.Svc.Request", path="other/Svc.1.0.dsdl", hps=True),
+    _c(name="ns.Svc.Request", path="ns/Svc/Request.1.0.dsdl", hps=True),
+    # aggregation: void / utf8 / byte per aggregate kind, deprecation (also through arrays / delimited wrappers), service
+    _c(attrs=[_A(_P, "void")]), _c(cls="UnionType", attrs=[_A(_F, "u8", "a"), _A(_P, "void")]),
+    _c(cls="ServiceType", attrs=[_A(_P, "void")]),
+    _c(attrs=[_A(_F, "utf8", "s")]), _c(attrs=[_A(_F, "byte", "b")]), _c(attrs=[_A(_F, "varr-utf8", "s")]),
+    _c(attrs=[_A(_F, "arr-byte", "b")]), _c(attrs=[_A(_F, "arr-void", "v")]),
+    _c(attrs=[_A(_F, "dep", "d")]), _c(attrs=[_A(_F, "dep", "d")], dep=True), _c(attrs=[_A(_F, "dep-arr", "d")]),
+    _c(attrs=[_A(_F, "varr-dep", "d")]), _c(attrs=[_A(_F, "delim-dep", "d")]), _c(attrs=[_A(_F, "delim-dep", "d")], dep=True),
+    _c(attrs=[_A(_F, "svc-elem", "s")]), _c(cls="UnionType", attrs=[_A(_F, "u8", "a"), _A(_F, "svc-elem", "s")]),
+    _c(attrs=[_A(_K, "u8", "C"), _A(_F, "dep", "d")], dep=False),
+]
+
+
+def _rnd_composite(rng, i):
+    names = ["x", "y", "X", "a", "b"]
+    attrs = []
+    for _ in range(rng.choice([0, 1, 2, 3, 4])):
+        k = rng.choice([_F, _F, _K, _P])
+        attrs.append(_A(k, "void") if k == _P else _A(k, rng.choice(["u8", "i16"]) if k == _K else rng.choice(["u8", "i16", "arr", "dep"]),
+                                                     rng.choice(names)))
+    return _c(cls=rng.choice(["StructureType", "UnionType", "ServiceType"]), attrs=attrs, dep=rng.random() < 0.3,
+              fpid=rng.choice([None, None, 0, 511, 512, 8191, 8192]), ver=[rng.choice([0, 1, 255, 256]), rng.choice([0, 1, 255, 256])])
+
+
+_gen_composite = _indexed(_COMPOSITE_CASES, _rnd_composite)
+
+
+def _native_attr(a):
+    from pydsdl import _serializable as S
+    from pydsdl import _expression as X
+
+    kind, t, name = a
+    if t == "i16":
+        ty = S.SignedIntegerType(16, S.PrimitiveType.CastMode.SATURATED)
+    else:
+        ty = _native_elem(t)
+    if kind == _P:
+        return S.PaddingField(ty)
+    if kind == _K:
+        return S.Constant(ty, name, X.Rational(1))
+    return S.Field(ty, name)
+
+
+def _build_composite(desc):
+    from pathlib import Path
+    from pydsdl import _serializable as S
+
+    cls = getattr(S, desc["cls"])
+    attrs = [_native_attr(a) for a in desc["attrs"]]
+    obj = object.__new__(cls)
+    obj._deprecated = bool(desc["dep"])  # what the aggregation rules read of the aggregate, for the pre-call evaluation
+    kw = dict(name=desc["name"], version=S.Version(*desc["ver"]), attributes=attrs, deprecated=desc["dep"],
+              fixed_port_id=desc["fpid"], source_file_path=Path(desc["path"]), has_parent_service=desc["hps"])
+
+    def call():
+        S.CompositeType.__init__(obj, **kw)
+        return obj
+
+    ns = dict(kw, doc="")
+    ns["self"] = obj
+    return call, ns
+
+
+# ---- _make_composite / finalize on real builders
+_MODES = ["none", "sealed", "ext0", "ext8", "ext12", "ext16", "ext64"]
+_MC_CASES = [{"mode": m, "union": u, "nfields": n} for m in _MODES for u in (False, True) for n in (0, 1, 2)]
+
+
+def _native_schema(mode, union, nfields):
+    from pydsdl import _serializable as S
+    from pydsdl import _data_schema_builder as B
+
+    b = B.DataSchemaBuilder()
+    if union:
+        b.make_union()
+    u8 = S.UnsignedIntegerType(8, S.PrimitiveType.CastMode.SATURATED)
+    for k in range(nfields):
+        b.add_field(S.Field(u8, "f%d" % k))
+    if mode == "sealed":
+        b.set_serialization_mode(B.SealedSerializationMode())
+    elif mode.startswith("ext"):
+        b.set_serialization_mode(B.DelimitedSerializationMode(int(mode[3:])))
+    return b
+
+
+def _build_make_composite(desc):
+    from pathlib import Path
+    from pydsdl import _serializable as S
+    from pydsdl._data_type_builder import DataTypeBuilder
+
+    b = _native_schema(desc["mode"], desc["union"], desc["nfields"])
+    kw = dict(builder=b, name="ns.T", version=S.Version(1, 0), deprecated=False, fixed_port_id=None,
+              source_file_path=Path("ns/T.1.0.dsdl"), has_parent_service=False)
+    return (lambda: DataTypeBuilder._make_composite(**kw)), dict(kw)
+
+
+_gen_make_composite = _indexed(_MC_CASES, lambda rng, i: None)
+
+_FIN_CASES = [{"ns": ns, "fpid": p, "svc": svc, "allow": allow, "mode": "sealed", "mode2": "sealed"}
+              for allow in (False, True) for svc in (False, True) for ns in ("uavcan", "cyphal", "vendor")
+              for p in ([None, 255, 256, 383, 384, 511, 512] if svc else [None, 6143, 6144, 7167, 7168, 8191, 8192])]
+_FIN_CASES = _FIN_CASES[:42] + [
+    {"ns": "vendor", "fpid": None, "svc": False, "allow": False, "mode": "none", "mode2": "sealed"},
+    {"ns": "vendor", "fpid": None, "svc": True, "allow": False, "mode": "sealed", "mode2": "none"},
+    {"ns": "vendor", "fpid": None, "svc": True, "allow": False, "mode": "none", "mode2": "sealed"},
+    {"ns": "vendor", "fpid": None, "svc": True, "allow": False, "mode": "ext64", "mode2": "sealed"},
+] + _FIN_CASES[42:]
+_gen_finalize = _indexed(_FIN_CASES, lambda rng, i: None)
+
+
+def _build_finalize(desc):
+    from pathlib import Path
+    from pydsdl import _serializable as S
+    from pydsdl._data_type_builder import DataTypeBuilder
+    from pydsdl._dsdl import ReadableDSDLFile
+
+    base = ("%d." % desc["fpid"] if desc["fpid"] is not None else "") + "T.1.0.dsdl"
+
+    class _Def(ReadableDSDLFile):  # a definition object with exactly the attributes finalize reads
+        full_name = desc["ns"] + ".T"
+        name_components = [desc["ns"], "T"]
+        short_name = "T"
+        full_namespace = desc["ns"]
+        root_namespace = desc["ns"]
+        text = ""
+        version = S.Version(1, 0)
+        fixed_port_id = desc["fpid"]
+        has_fixed_port_id = desc["fpid"] is not None
+        file_path = Path(desc["ns"]) / base
+        root_namespace_path = Path(desc["ns"])
+        composite_type = None
+
+        def read(self, *a, **k):  # pragma: no cover
+            raise NotImplementedError
+
+    d = _Def()
+    b = DataTypeBuilder(d, [], [], lambda line, text: None, desc["allow"])
+    b._structs = [_native_schema(desc["mode"], False, 1)] + ([_native_schema(desc["mode2"], False, 1)] if desc["svc"] else [])
+    return (lambda: b.finalize()), {"self": b}
+
+
 NATIVE.add("pydsdl._serializable._name.check_name", _gen_name, _build_check_name)
 NATIVE.add(ATTRIBUTE + ".__init__", _gen_attr, _build_attr("Field"))
+NATIVE.add(PADDING + ".__init__", _gen_padding, _build_padding)
 NATIVE.add(SIGNED_T + ".__init__", _gen_width, _build_signed)
+NATIVE.add(UNSIGNED_T + ".__init__", _gen_width, _build_width("UnsignedIntegerType"))
+NATIVE.add(FLOAT_T + ".__init__", _gen_width, _build_width("FloatType"))
 NATIVE.add(VOID_T + ".__init__", _gen_width, _build_void)
+NATIVE.add(SER + "_array.FixedLengthArrayType.__init__", _gen_cap, _build_array("FixedLengthArrayType"))
+NATIVE.add(SER + "_array.VariableLengthArrayType.__init__", _gen_cap, _build_array("VariableLengthArrayType"))
 NATIVE.add(SERIALIZABLE + "._check_aggregation@dynamic", _gen_agg, _build_agg)
+# the same cases under the name of every override, so that the escalation run of an undecided override finds them
+for _q, _classes in ((PRIMITIVE, ["BooleanType", "SignedIntegerType", "UnsignedIntegerType", "FloatType"]), (BYTE_T, ["ByteType"]),
+                     (UTF8_T, ["UTF8Type"]), (VOID_T, ["VoidType"]), (ARRAY, ["FixedLengthArrayType", "VariableLengthArrayType"]),
+                     (COMPOSITE, ["StructureType", "UnionType"]), (DELIMITED, ["DelimitedType"]), (SERVICE, ["ServiceType"])):
+    NATIVE.add(_q + "._check_aggregation", _gen_agg, _build_agg_for(_classes))
+NATIVE.add(COMPOSITE + ".__init__", _gen_composite, _build_composite)
+NATIVE.add(DTB + "._make_composite", _gen_make_composite, _build_make_composite)
 NATIVE.add(PIR + "is_valid_regulated_subject_id", _gen_reg, _build_reg("is_valid_regulated_subject_id"))
 NATIVE.add(PIR + "is_valid_regulated_service_id", _gen_reg, _build_reg("is_valid_regulated_service_id"))
 
@@ -925,6 +1205,7 @@ class _Finalize:
     returns = ObjOf(COMPOSITE)
     raises = dict(_SERVICE_ERRORS, MalformedUnionError=None, InvalidExtentError=None, **{
         "MissingSerializationModeError": lambda s: OR(*[IS_NONE(sec._serialization_mode) for sec in c03.SECS(s.self)]),
+        "InvalidDefinitionError": None,  # the common base class of the rule-specific errors (see _make_composite)
     })
     raises_if = {"UnregulatedFixedPortIDError": lambda s: NOT(s.self._allow_unregulated_fixed_port_id)}  # one-sided
     may_raise = ["ValueError"]  # ServiceType.__init__'s internal consistency error (see _ServiceInitAssumed)
@@ -941,3 +1222,5 @@ class _Finalize:
                 IS_NONE(r._fixed_port_id),
                 lambda: REGULATED(VAL(r._fixed_port_id), ROOT_NS(r), n == 2))),
         }
+
+NATIVE.add(DTB + ".finalize", _gen_finalize, _build_finalize)
